@@ -4,6 +4,7 @@ import (
 	"go/ast"
 	"go/token"
 	"go/types"
+	"sort"
 	"strings"
 
 	"golang.org/x/tools/go/ssa"
@@ -774,4 +775,188 @@ func onlyFrom(v ssa.Value, leaf func(ssa.Value) bool) bool {
 		return false
 	}
 	return walk(v, 0)
+}
+
+// siblingIndexAudit: a struct that keeps the same objects in two containers (two fields that are maps/slices whose
+// ultimate element type is the same *T: a list per route and an index by name) must change them together: every
+// function that inserts into, deletes from or replaces one of the containers does so for the other too. A function
+// that trims the list but not the index leaves objects reachable through the index that every walk over the list
+// (invalidation, eviction, statistics) no longer sees. Returns the number of sibling pairs found.
+func siblingIndexAudit(c *Ctx, rule string, rels []string) int {
+	elemOf := func(t types.Type) *types.Named {
+		for i := 0; i < 4; i++ {
+			switch u := t.Underlying().(type) {
+			case *types.Map:
+				t = u.Elem()
+				continue
+			case *types.Slice:
+				t = u.Elem()
+				continue
+			case *types.Pointer:
+				if n := namedOf(u.Elem()); n != nil {
+					if _, isStruct := n.Underlying().(*types.Struct); isStruct {
+						return n
+					}
+				}
+				return nil
+			}
+			break
+		}
+		return nil
+	}
+	isContainer := func(t types.Type) bool {
+		switch t.Underlying().(type) {
+		case *types.Map, *types.Slice:
+			return true
+		}
+		return false
+	}
+	nPairs := 0
+	for _, rel := range rels {
+		p := c.pkg(rel)
+		if p == nil {
+			continue
+		}
+		sc := p.Types.Scope()
+		for _, nm := range sc.Names() {
+			tn, ok := sc.Lookup(nm).(*types.TypeName)
+			if !ok {
+				continue
+			}
+			st, ok := tn.Type().Underlying().(*types.Struct)
+			if !ok {
+				continue
+			}
+			byElem := map[*types.Named][]string{}
+			for i := 0; i < st.NumFields(); i++ {
+				f := st.Field(i)
+				if !isContainer(f.Type()) {
+					continue
+				}
+				if e := elemOf(f.Type()); e != nil {
+					byElem[e] = append(byElem[e], f.Name())
+				}
+			}
+			for e, fields := range byElem {
+				if len(fields) < 2 {
+					continue
+				}
+				// the containers are indexes of the same objects only if some function puts one and the same value into
+				// two of them (a list of errors and a list of warnings merely share a type)
+				shared := false
+				for _, fn := range c.srcFuncs(rel) {
+					stored := map[string][]ssa.Value{}
+					eachInstr(fn, func(_ *ssa.BasicBlock, _ int, ins ssa.Instruction) {
+						mu, ok := ins.(*ssa.MapUpdate)
+						if !ok {
+							return
+						}
+						u, ok := mu.Map.(*ssa.UnOp)
+						if !ok {
+							return
+						}
+						fa, ok := u.X.(*ssa.FieldAddr)
+						if !ok {
+							return
+						}
+						nt, f, ok := fieldOf(fa)
+						if !ok || nt == nil || nt.Obj() != tn {
+							return
+						}
+						// the object itself, or the slice it was appended to
+						var vals []ssa.Value
+						vals = append(vals, mu.Value)
+						if ap, ok := mu.Value.(*ssa.Call); ok && callName(ap) == "builtin.append" && len(ap.Call.Args) > 1 {
+							if sl, ok := ap.Call.Args[1].(*ssa.Slice); ok {
+								if al, ok := sl.X.(*ssa.Alloc); ok {
+									for _, r := range refs(al) {
+										if ia, ok := r.(*ssa.IndexAddr); ok {
+											for _, rr := range refs(ia) {
+												if st, ok := rr.(*ssa.Store); ok && st.Addr == ssa.Value(ia) {
+													vals = append(vals, st.Val)
+												}
+											}
+										}
+									}
+								}
+							}
+						}
+						stored[f] = append(stored[f], vals...)
+					})
+					for i, f1 := range fields {
+						for _, f2 := range fields[i+1:] {
+							for _, v1 := range stored[f1] {
+								for _, v2 := range stored[f2] {
+									if v1 == v2 {
+										shared = true
+									}
+								}
+							}
+						}
+					}
+				}
+				if !shared {
+					continue
+				}
+				nPairs++
+				// which functions write which container
+				writes := map[*ssa.Function]map[string]bool{}
+				for _, fn := range c.srcFuncs(rel) {
+					eachInstr(fn, func(_ *ssa.BasicBlock, _ int, ins ssa.Instruction) {
+						mark := func(v ssa.Value) {
+							// the container itself: the field's address, or the map loaded from it (not an element reached through it)
+							var fa *ssa.FieldAddr
+							switch y := v.(type) {
+							case *ssa.FieldAddr:
+								fa = y
+							case *ssa.UnOp:
+								fa, _ = y.X.(*ssa.FieldAddr)
+							}
+							if fa == nil {
+								return
+							}
+							if nt, f, ok := fieldOf(fa); ok && nt != nil && nt.Obj() == tn {
+								for _, sf := range fields {
+									if sf == f {
+										if writes[fn] == nil {
+											writes[fn] = map[string]bool{}
+										}
+										writes[fn][f] = true
+									}
+								}
+							}
+						}
+						switch x := ins.(type) {
+						case *ssa.MapUpdate:
+							mark(x.Map)
+						case *ssa.Store:
+							if fa, ok := x.Addr.(*ssa.FieldAddr); ok && !isFreshAlloc(fa.X) {
+								mark(fa)
+							}
+						case *ssa.Call:
+							if callName(x) == "builtin.delete" {
+								mark(x.Call.Args[0])
+							}
+						}
+					})
+				}
+				var fns []*ssa.Function
+				for fn := range writes {
+					fns = append(fns, fn)
+				}
+				sort.Slice(fns, func(i, j int) bool { return fnKey(fns[i]) < fnKey(fns[j]) })
+				for _, fn := range fns {
+					var missing []string
+					for _, f := range fields {
+						if !writes[fn][f] {
+							missing = append(missing, f)
+						}
+					}
+					c.ob(rule, fnKey(fn)+"#sibling-containers-of-"+e.Obj().Name()+"-change-together", fn.Pos(), len(missing) == 0,
+						tn.Name()+" keeps its "+e.Obj().Name()+" objects in "+strings.Join(fields, " and ")+"; this function changes one of them but not "+strings.Join(missing, ", ")+": an object it drops from one container stays reachable through the other, where invalidation and eviction (which walk the first) no longer see it")
+				}
+			}
+		}
+	}
+	return nPairs
 }
